@@ -40,7 +40,7 @@ type Scn struct {
 func (s *Scn) ParentNS() string   { return metaStr(s.Parent, "namespace") }
 func (s *Scn) ParentName() string { return metaStr(s.Parent, "name") }
 
-var childPool = []string{"configmaps", "widgets", "gadgets", "cwidgets"}
+var childPool = []string{"configmaps", "widgets", "gadgets", "cwidgets", "xgadgets"}
 
 // GenScn draws a controller configuration, a hook program and a parent.
 func GenScn(c *vs.Case, o GenOpts) *Scn {
@@ -72,7 +72,7 @@ func GenScn(c *vs.Case, o GenOpts) *Scn {
 		maxKinds = 2
 	}
 	nk := 1 + c.Int(maxKinds)
-	pool := []string{"configmaps", "widgets", "gadgets"}
+	pool := []string{"configmaps", "widgets", "gadgets", "xgadgets"}
 	if cluster {
 		pool = childPool
 	}
